@@ -182,24 +182,27 @@ Proof.
 Qed.
 
 (* ---- the callers -------------------------------------------------------------------------------------------------- *)
+(* every caller is GeoPolygon(convex_hull(<gathered vertices>)); with the gathered list written as the concatenation
+   of what each member contributes, that is the model's hull_of_members *)
+Lemma geq_hull_of_members : forall ms, poly_outline (g_convex_hull (concat ms)) = hull_of_members ms.
+Proof. intros. unfold hull_of_members. rewrite geq_convex_hull. reflexivity. Qed.
+
 (* MultiGeoLineString.convex_hull: a member is observed as the list shape.vertices *)
-Lemma geq_mline_hull : forall ms, g_mline_hull ms = hull_of_members ms.
+Lemma geq_mline_hull : forall ms, g_mline_hull ms = poly_outline (g_convex_hull (concat ms)).
 Proof.
-  intros. unfold g_mline_hull, hull_of_members, geoshapes_of, member_pts. rewrite geq_convex_hull.
-  rewrite flat_map_concat_map, map_id. reflexivity.
+  intros. unfold g_mline_hull, geoshapes_of, member_pts. rewrite flat_map_concat_map, map_id. reflexivity.
 Qed.
 
 (* MultiGeoPolygon.convex_hull: a member is observed as the list shape.bounding_coords(kwargs passed through) *)
-Lemma geq_mpoly_hull : forall ms, g_mpoly_hull ms = hull_of_members ms.
+Lemma geq_mpoly_hull : forall ms, g_mpoly_hull ms = poly_outline (g_convex_hull (concat ms)).
 Proof.
-  intros. unfold g_mpoly_hull, hull_of_members, geoshapes_of, member_pts. rewrite geq_convex_hull.
-  rewrite flat_map_concat_map, map_id. reflexivity.
+  intros. unfold g_mpoly_hull, geoshapes_of, member_pts. rewrite flat_map_concat_map, map_id. reflexivity.
 Qed.
 
 (* MultiGeoPoint.convex_hull: a member is observed as its centroid; it contributes that one point *)
-Lemma geq_mpoint_hull : forall ps, g_mpoint_hull ps = hull_of_members (map (fun p => [p]) ps).
+Lemma geq_mpoint_hull : forall ps, g_mpoint_hull ps = poly_outline (g_convex_hull (concat (map (fun p => [p]) ps))).
 Proof.
-  intros. unfold g_mpoint_hull, hull_of_members, geoshapes_of, member_pt. rewrite geq_convex_hull, map_id.
+  intros. unfold g_mpoint_hull, geoshapes_of, member_pt. rewrite map_id.
   replace (concat (map (fun p : pt => [p]) ps)) with ps; [reflexivity|].
   induction ps as [|p ps IH]; cbn; [reflexivity|]. rewrite <- IH. reflexivity.
 Qed.
@@ -222,8 +225,8 @@ Proof.
   induction parts as [|p parts IHp]; cbn [flat_map]; [reflexivity|]. rewrite IH, IHp. reflexivity.
 Qed.
 
-Lemma geq_coll_hull : forall ms, g_coll_hull ms = hull_of_members (map spec_vertices ms).
+Lemma geq_coll_hull : forall ms, g_coll_hull ms = poly_outline (g_convex_hull (concat (map spec_vertices ms))).
 Proof.
-  intros. unfold g_coll_hull, hull_of_members, geoshapes_of. rewrite geq_convex_hull, flat_map_concat_map.
+  intros. unfold g_coll_hull, geoshapes_of. rewrite flat_map_concat_map.
   do 3 f_equal. apply map_ext. exact geq_get_vertices_1.
 Qed.
